@@ -221,8 +221,9 @@ def incomplete_gate(prog, r):
     def atom_key(atom, resolve):
         if atom[0] == 'cmp' and atom[1] == '<':
             lc, rc = resolve(atom[2]), resolve(atom[3])
-            if (lc is not None and lc.get('callee') == 'bus_connections_get_n_incomplete' and rc is not None
-                    and rc.get('callee') == 'bus_context_get_max_incomplete_connections'):
+            limit = (rc is not None and rc.get('callee') == 'bus_context_get_max_incomplete_connections') or \
+                is_member(atom[3], 'max_incomplete_connections', 'BusLimits')     # the getter, or the field it returns
+            if lc is not None and lc.get('callee') == 'bus_connections_get_n_incomplete' and limit:
                 seen[0] += 1
                 return ('ilim', +1, var_ids(atom[2], atom[3]))
         return None
